@@ -93,6 +93,20 @@ func c20Families() []costFamily {
 		{"dollar-quoted-bodies", func(n int) string { return "SELECT " + rep("$q$ body $q$, ", n) + "1" }, 500},
 		{"string-escapes", func(n int) string { return "SELECT '" + rep("it''s \\n ", n) + "'" }, 1000},
 		{"quoted-idents", func(n int) string { return "SELECT " + rep("\"a\", ", n) + "\"a\" FROM t" }, 1000},
+		// combinations of two dimensions (added after the second and third rounds of seeded changes)
+		{"dollar-string-per-line", func(n int) string { return rep("SELECT $$x$$ , a;\n", n) }, 500},
+		{"comments-on-one-long-line", func(n int) string { return "SELECT 1" + rep(" /*c*/ + 1", n) }, 500},
+		{"compound-opener-then-comment", func(n int) string { return "SELECT " + rep("LEFT /*c*/ x ", n) }, 500},
+		{"blanks-then-comments", func(n int) string { return "SELECT 1\n" + rep("    ", n) + rep("/**/", n) }, 500},
+		{"long-dollar-tag", func(n int) string { tag := "$" + rep("t", n) + "$"; return "SELECT " + tag + rep(" $", n) + " " + tag }, 500},
+		{"qualified-name-parts", func(n int) string { return "SELECT * FROM a" + rep(".a", n) }, 500},
+		{"chain-slice", func(n int) string { return "SELECT a" + rep("[1:2]", n) + " FROM t" }, 500},
+		{"chain-json-cast", func(n int) string { return "SELECT a" + rep("->'b'::int", n) + " FROM t" }, 300},
+		{"or-tautologies", func(n int) string { return "SELECT a FROM t WHERE c = 0" + rep(" OR 1 = 1", n) }, 500},
+		{"tautology-statements", func(n int) string { return rep("SELECT * FROM t WHERE a = 1 OR 1=1;\n", n) }, 500},
+		{"match-against-nest", func(n int) string { return "SELECT " + rep("MATCH(a) AGAINST (", n) + "'x'" + rep(")", n) + " FROM t" }, 200},
+		{"match-mode-words", func(n int) string { return "SELECT MATCH(a) AGAINST ('x'" + rep(" w", n) + ") FROM t" }, 500},
+		{"sign-chain-not", func(n int) string { return "SELECT a FROM t WHERE a = 1" + rep(" AND NOT a = 1", n) }, 500},
 	}
 }
 
